@@ -89,6 +89,9 @@ type Exec struct {
 	inInit     int
 	merging    int
 	mergeBase  int
+	blocks         map[string]*cblock
+	blockSeq       int
+	compressPolicy int
 }
 
 type NdInput struct {
